@@ -131,6 +131,8 @@ class Tr:
                     return self.expr(e.args[0])
                 if f.id == 'isinstance' and len(e.args) == 2 and isinstance(e.args[1], ast.Name) and e.args[1].id == 'int':
                     return '(EIsInt %s)' % self.expr(e.args[0])
+                if f.id == 'verifyType' and len(e.args) == 2 and isinstance(e.args[1], ast.Name) and e.args[1].id == 'str':
+                    return '(EIsStr %s)' % self.expr(e.args[0])
                 if f.id == 'isinstance' and len(e.args) == 2 and isinstance(e.args[1], ast.Name) and e.args[1].id == 'dict':
                     return '(EIsDict %s)' % self.expr(e.args[0])
                 if f.id == 'list' and len(e.args) == 1:
@@ -271,6 +273,8 @@ FUNCS = [
     ('g_get_html', 'localcider/backend/sequence.py', 'Sequence', 'get_HTMLColorString', []),
     ('g_reduce_user', 'localcider/backend/sequenceComplexity.py', 'SequenceComplexity', 'reduce_alphabet', [''],
      'len(userAlphabet) > 0'),
+    ('g_init_prefix', 'localcider/backend/sequence.py', 'Sequence', '__init__', [],
+     ('upto', 'self.chargePattern = chargePattern')),
     ('g_parseSeqFile', 'localcider/backend/seqfileparser.py', 'SequenceFileParser', 'parseSeqFile', []),
 ]
 
@@ -284,7 +288,12 @@ def generate(repo):
     def one(name, rel, cls, fn, prefixes, select=None):
         def thunk():
             node = find_func(parse_file(os.path.join(repo, rel)), fn, cls)
-            if select is not None:          # translate one top-level if-block of the function (its body), chosen by its test
+            if isinstance(select, tuple) and select[0] == 'upto':      # the leading statements, up to and including one given statement
+                idx = [i for i, n in enumerate(node.body) if ' '.join(ast.unparse(n).split()) == select[1]]
+                if len(idx) != 1:
+                    raise Untranslatable('statement `%s` not found exactly once' % select[1])
+                node = ast.FunctionDef(name=node.name, args=node.args, body=node.body[:idx[0] + 1], decorator_list=[])
+            elif select is not None:          # translate one top-level if-block of the function (its body), chosen by its test
                 hits = [n for n in node.body if isinstance(n, ast.If) and ' '.join(ast.unparse(n.test).split()) == select]
                 if len(hits) != 1 or hits[0].orelse:
                     raise Untranslatable('block `if %s:` not found exactly once (without else)' % select)
